@@ -41,6 +41,14 @@ Theorem C11_aggregators_no_panic : forall vs f,
 Proof. intros vs f. exact (conj (median_agg_no_panic vs f) (conj (quote_agg_no_panic vs f) (mode_agg_no_panic vs f))). Qed.
 Print Assumptions C11_aggregators_no_panic.
 
+(* ---- LLO ValidateObservation as a whole: any bytes, any sequence number ---- *)
+Theorem C11_validate_no_panic : forall codec_ok has_pred seq bs, is_panic (plugin_validate codec_ok has_pred seq bs) = false.
+Proof.
+  intros. unfold plugin_validate. destruct (seq <? 1); [reflexivity|]. destruct ((seq =? 1) && _); [reflexivity|].
+  pose proof (decode_observation_no_panic bs) as H. destruct (decode_observation bs); try discriminate; [|reflexivity].
+  destruct (validate_observation codec_ok has_pred a); reflexivity.
+Qed.
+
 (* ---- LLO Observation as a whole: any previous-outcome bytes, any cache / data-source behaviour short of a panic of theirs ---- *)
 Theorem C11_observation_no_panic : forall codec_ok cf seq prev_bytes now cache_att should_retire expected source_vals source_fails,
   is_panic cache_att = false -> is_panic should_retire = false ->
